@@ -108,9 +108,11 @@ type lcProp struct {
 var lcNames = []string{"peer-one", "bsc.main", "eth_1", "tss+x", "ab", "has/slash", "peer-two"}
 
 var lcVariants = map[string][]string{
-	"tm":  {"valid", "valid", "valid", "zero_height", "huge_period", "nil_specs_like"},
-	"bsc": {"valid", "valid", "valid", "epoch_zero", "no_validators", "non_epoch_header", "huge_epoch", "zero_tp"},
-	"eth": {"valid", "valid", "valid", "zero_tp", "chain_id_zero", "huge_delay"},
+	// short_tp: a legitimate but short trusting period, so that consensus states expire (and get pruned)
+	// between the submission of a later proposal and its execution
+	"tm":  {"valid", "valid", "valid", "zero_height", "huge_period", "nil_specs_like", "short_tp"},
+	"bsc": {"valid", "valid", "valid", "epoch_zero", "no_validators", "non_epoch_header", "huge_epoch", "zero_tp", "short_tp", "short_tp"},
+	"eth": {"valid", "valid", "valid", "zero_tp", "chain_id_zero", "huge_delay", "short_tp"},
 	"tss": {"valid", "valid", "empty_pubkey", "zero_threshold"},
 }
 
@@ -123,10 +125,27 @@ func (LifecycleScenario) Generate(rng *rand.Rand, focus, tier string) kernel.Pla
 	if focus == "C15" {
 		degenerate = 60
 	}
+	if (focus == "C15" || focus == "C18") && kernel.Chance(rng, 0.5) || kernel.Chance(rng, 0.05) {
+		// prelude: a client with a short trusting period is installed and upgraded again soon after, so that its
+		// oldest consensus state is still trusted when the upgrade is submitted and has expired when it executes
+		name, kind := rng.Int63n(7), 1+rng.Int63n(2) // bsc or eth
+		short := int64(8)
+		if kind == 2 {
+			short = 6
+		}
+		add("create", name, kind, short, rng.Int63())
+		add("block", 2)
+		add("advance", 21)
+		add("block", 2)
+		add("upgrade", name, 0, 0, rng.Int63())
+		add("block", 2)
+		add("advance", 19+rng.Int63n(8))
+		add("block", 3)
+	}
 	for i := 0; i < n; i++ {
 		v := int64(0)
 		if rng.Int63n(100) < degenerate {
-			v = 3 + rng.Int63n(5)
+			v = 3 + rng.Int63n(7)
 		}
 		switch x := rng.Intn(100); {
 		case x < 18:
@@ -285,6 +304,8 @@ func (w *lcWorld) describe(cp *counterparty, variant string) (exported.ClientSta
 			h = clienttypes.NewHeight(s.rev, 0)
 		case "huge_period":
 			tp = time.Duration(1<<62 - 1)
+		case "short_tp":
+			tp = 40 * time.Second
 		}
 		cs := xibctmtypes.NewClientState(s.chainID, xibctmtypes.DefaultTrustLevel, tp, tp+time.Hour, 10*time.Second, h,
 			commitmenttypes.GetSDKSpecs(), commitmenttypes.MerklePrefix{KeyPrefix: []byte("xibc")}, 0)
@@ -311,6 +332,8 @@ func (w *lcWorld) describe(cp *counterparty, variant string) (exported.ClientSta
 			epoch = 1 << 63
 		case "zero_tp":
 			tp = 0
+		case "short_tp":
+			tp = 50
 		}
 		cs := bsctypes.NewClientState(*hdr, 56, epoch, 3, vb, b.contract.Bytes(), tp)
 		return cs, &bsctypes.ConsensusState{Timestamp: b.m.head.Time, Height: hdr.Height, Root: b.m.head.Root.Bytes()}
@@ -319,6 +342,8 @@ func (w *lcWorld) describe(cp *counterparty, variant string) (exported.ClientSta
 		hdr := toETHHeader(e.head.h)
 		cs := &ethclient.ClientState{Header: *hdr, ChainId: 4, ContractAddress: e.contract.Bytes(), TrustingPeriod: 14 * 24 * 3600, BlockDelay: 1}
 		switch variant {
+		case "short_tp":
+			cs.TrustingPeriod = 50
 		case "zero_tp":
 			cs.TrustingPeriod = 0
 		case "chain_id_zero":
